@@ -3,6 +3,7 @@ package main
 import (
 	"fmt"
 	"go/ast"
+	"sort"
 	"strings"
 )
 
@@ -45,6 +46,47 @@ func structFieldTypes(f *File, name string) (map[string]string, error) {
 	return nil, fmt.Errorf("%s: type %s not found", f.Path, name)
 }
 
+// g17Alpha renames, in place, every identifier declared inside fd (receiver,
+// parameters, := and range variables) to v1, v2, ... in order of declaration,
+// so that renaming a local does not change the rendered shape.
+func g17Alpha(fd *ast.FuncDecl) {
+	names := map[*ast.Object]string{}
+	keys := map[*ast.Ident]bool{} // field keys of composite literals are not variables
+	ast.Inspect(fd, func(x ast.Node) bool {
+		if cl, ok := x.(*ast.CompositeLit); ok {
+			for _, el := range cl.Elts {
+				if kv, ok := el.(*ast.KeyValueExpr); ok {
+					if id, ok := kv.Key.(*ast.Ident); ok {
+						keys[id] = true
+					}
+				}
+			}
+		}
+		return true
+	})
+	ast.Inspect(fd, func(x ast.Node) bool {
+		id, ok := x.(*ast.Ident)
+		if !ok || keys[id] || id.Obj == nil || id.Obj.Kind != ast.Var || id.Name == "_" {
+			return true
+		}
+		if id.Obj.Pos() < fd.Pos() || id.Obj.Pos() > fd.End() {
+			return true
+		}
+		if _, seen := names[id.Obj]; !seen {
+			names[id.Obj] = fmt.Sprintf("v%d", len(names)+1)
+		}
+		return true
+	})
+	ast.Inspect(fd, func(x ast.Node) bool {
+		if id, ok := x.(*ast.Ident); ok && id.Obj != nil && !keys[id] {
+			if n, ok := names[id.Obj]; ok {
+				id.Name = n
+			}
+		}
+		return true
+	})
+}
+
 // litKV renders a (possibly &-prefixed) keyed composite literal as "T{k: v, k: v}"
 // independent of line breaks and trailing commas.
 func litKV(f *File, e ast.Expr) string {
@@ -61,6 +103,7 @@ func litKV(f *File, e ast.Expr) string {
 	for _, el := range cl.Elts {
 		parts = append(parts, f.Src(el))
 	}
+	sort.Strings(parts) // the order of keyed fields is irrelevant
 	return amp + f.Src(cl.Type) + "{" + strings.Join(parts, ", ") + "}"
 }
 
@@ -84,6 +127,8 @@ func lastReturn(f *File, b *ast.BlockStmt) string {
 // (joined bare / joined with each rule in a non-capturing group / evaluated one
 // by one), the guard for an empty joined text, the evaluation order of
 // exclude and include, inversion, the '-' prefix and the list partition.
+// Function bodies are compared after renaming locals to v1, v2, ... (receiver
+// and parameters first), so renaming a variable is not a change of shape.
 func genG17(repo string, w *Out) error {
 	f, err := Parse(repo, "ruleset/regexp.go")
 	if err != nil {
@@ -93,15 +138,23 @@ func genG17(repo string, w *Out) error {
 	if err != nil {
 		return err
 	}
-	nm, err := f.Func("NewRegexpMatcher")
+	fn := func(name string) (*ast.FuncDecl, error) {
+		fd, err := f.Func(name)
+		if err != nil {
+			return nil, err
+		}
+		g17Alpha(fd)
+		return fd, nil
+	}
+	// ---- NewRegexpMatcher(v1 include, v2 exclude)
+	nm, err := fn("NewRegexpMatcher")
 	if err != nil {
 		return err
 	}
 	first := stmtsOf(f, nm.Body)
-	if len(first) == 0 || first[0] != "if len(include) == 0 { return nil, ErrNoIncludeRules }" {
+	if len(first) == 0 || first[0] != "if len(v1) == 0 { return nil, ErrNoIncludeRules }" {
 		return fmt.Errorf("NewRegexpMatcher: first statement is not the empty-include check: %q", first)
 	}
-	// arguments of every WriteString call, and compile calls, in source order
 	var writes, compiles []string
 	guard := false
 	ast.Inspect(nm.Body, func(x ast.Node) bool {
@@ -115,14 +168,18 @@ func genG17(repo string, w *Out) error {
 				compiles = append(compiles, f.Src(n))
 			}
 		case *ast.IfStmt:
-			if n.Init != nil && f.Src(n.Init) == "s := regex.String()" && f.Src(n.Cond) == `s != ""` {
-				guard = true
+			if n.Init != nil && len(n.Body.List) == 1 {
+				as, ok := n.Init.(*ast.AssignStmt)
+				if ok && len(as.Lhs) == 1 && len(as.Rhs) == 1 && strings.HasSuffix(f.Src(as.Rhs[0]), ".String()") &&
+					f.Src(n.Cond) == f.Src(as.Lhs[0])+` != ""` {
+					guard = true
+				}
 			}
 		}
 		return true
 	})
 	ret := lastReturn(f, nm.Body)
-	matchFn, err := f.Func("RegexpMatcher.match")
+	matchFn, err := fn("RegexpMatcher.match") // (v1 r) match(v2 s)
 	if err != nil {
 		return err
 	}
@@ -130,24 +187,25 @@ func genG17(repo string, w *Out) error {
 
 	joinedFields := fields["include"] == "*regexp.Regexp" && fields["exclude"] == "*regexp.Regexp"
 	listFields := fields["include"] == "[]*regexp.Regexp" && fields["exclude"] == "[]*regexp.Regexp"
-	joinedRet := ret == "return &RegexpMatcher{include: build(include), exclude: build(exclude)}, nil"
-	const joinedMatch = `if r.exclude != nil && r.exclude.MatchString(s) { return false } ; return r.include != nil && r.include.MatchString(s)`
-	const joinedMatchInclFirst = `if r.include == nil || !r.include.MatchString(s) { return false } ; return r.exclude == nil || !r.exclude.MatchString(s)`
-	const eachMatch = `if matchAny(r.exclude, s) { return false } ; return matchAny(r.include, s)`
-	const eachMatchInclFirst = `if !matchAny(r.include, s) { return false } ; return !matchAny(r.exclude, s)`
+	// build := func(v4 rules) { var v5 regex; for v6 i := range v4 {...}; if v7 s := ...}: the closure is v3
+	joinedRet := ret == "return &RegexpMatcher{exclude: v3(v2), include: v3(v1)}, nil"
+	const joinedMatch = `if v1.exclude != nil && v1.exclude.MatchString(v2) { return false } ; return v1.include != nil && v1.include.MatchString(v2)`
+	const joinedMatchInclFirst = `if v1.include == nil || !v1.include.MatchString(v2) { return false } ; return v1.exclude == nil || !v1.exclude.MatchString(v2)`
+	const eachMatch = `if matchAny(v1.exclude, v2) { return false } ; return matchAny(v1.include, v2)`
+	const eachMatchInclFirst = `if !matchAny(v1.include, v2) { return false } ; return !matchAny(v1.exclude, v2)`
 
 	ws := strings.Join(writes, " , ")
+	oneCompile := len(compiles) == 1 && strings.HasPrefix(compiles[0], "regexp.MustCompile(v")
 	shape := -1
 	switch {
-	case joinedFields && joinedRet && len(compiles) == 1 && compiles[0] == "regexp.MustCompile(s)" &&
-		ws == `"|" , rules[i].String()`:
+	case joinedFields && joinedRet && oneCompile && ws == `"|" , v4[v6].String()`:
 		shape = 0
-	case joinedFields && joinedRet && len(compiles) == 1 && compiles[0] == "regexp.MustCompile(s)" &&
-		(ws == `"|" , "(?:" , rules[i].String() , ")"` || ws == `"|" , "(?:" + rules[i].String() + ")"`):
+	case joinedFields && joinedRet && oneCompile &&
+		(ws == `"|" , "(?:" , v4[v6].String() , ")"` || ws == `"|" , "(?:" + v4[v6].String() + ")"`):
 		shape = 1
 	case listFields && len(writes) == 0 && len(compiles) == 0 &&
-		(ret == "return &RegexpMatcher{include: slices.Clone(include), exclude: slices.Clone(exclude)}, nil" ||
-			ret == "return &RegexpMatcher{include: include, exclude: exclude}, nil"):
+		(ret == "return &RegexpMatcher{exclude: slices.Clone(v2), include: slices.Clone(v1)}, nil" ||
+			ret == "return &RegexpMatcher{exclude: v2, include: v1}, nil"):
 		shape = 2
 	}
 	if shape < 0 {
@@ -157,13 +215,13 @@ func genG17(repo string, w *Out) error {
 	w.Linef("(* 0 = rule texts joined with '|'; 1 = joined, each rule wrapped in (?:...); 2 = rules evaluated one by one *)")
 	w.DefN("join_shape", uint64(shape))
 	if shape == 2 {
-		// matchAny must be the plain existential loop
-		ma, err := f.Func("matchAny")
+		// matchAny(v1 rules, v2 s) must be the plain existential loop
+		ma, err := fn("matchAny")
 		if err != nil {
 			return err
 		}
 		body := strings.Join(stmtsOf(f, ma.Body), " ; ")
-		if body != "for _, re := range rules { if re.MatchString(s) { return true } } ; return false" {
+		if body != "for _, v3 := range v1 { if v3.MatchString(v2) { return true } } ; return false" {
 			return fmt.Errorf("matchAny: body %q is not the existential loop the model knows", body)
 		}
 		w.DefBool("empty_joined_is_nil", true) // not used by this shape
@@ -182,17 +240,17 @@ func genG17(repo string, w *Out) error {
 	}
 	w.DefStr("match_body", matchBody)
 
-	// Match: inversion applied to the result of match
-	mf, err := f.Func("RegexpMatcher.Match")
+	// ---- (v1 r) Match(v2 s): inversion applied to the result of match
+	mf, err := fn("RegexpMatcher.Match")
 	if err != nil {
 		return err
 	}
 	mb := strings.Join(stmtsOf(f, mf.Body), " ; ")
-	if mb != "m := r.match(s) ; if r.inverse { m = !m } ; return m" {
+	if mb != "v3 := v1.match(v2) ; if v1.inverse { v3 = !v3 } ; return v3" {
 		return fmt.Errorf("RegexpMatcher.Match: body %q is not the shape the model knows", mb)
 	}
-	// Inverse: toggles or sets
-	iv, err := f.Func("RegexpMatcher.Inverse")
+	// ---- (v1 r) Inverse(): toggles or sets
+	iv, err := fn("RegexpMatcher.Inverse")
 	if err != nil {
 		return err
 	}
@@ -201,46 +259,46 @@ func genG17(repo string, w *Out) error {
 		return fmt.Errorf("RegexpMatcher.Inverse: more than one statement")
 	}
 	switch ib {
-	case "return &RegexpMatcher{include: r.include, exclude: r.exclude, inverse: !r.inverse}":
+	case "return &RegexpMatcher{exclude: v1.exclude, include: v1.include, inverse: !v1.inverse}":
 		w.DefBool("inverse_toggles", true)
-	case "return &RegexpMatcher{include: r.include, exclude: r.exclude, inverse: true}":
+	case "return &RegexpMatcher{exclude: v1.exclude, include: v1.include, inverse: true}":
 		w.DefBool("inverse_toggles", false)
 	default:
 		return fmt.Errorf("RegexpMatcher.Inverse: body %q is not a shape the model knows", ib)
 	}
-	// ParseRegexpListItem: the exclusion prefix
-	pi, err := f.Func("ParseRegexpListItem")
+	// ---- ParseRegexpListItem(v1 val): the exclusion prefix
+	pi, err := fn("ParseRegexpListItem")
 	if err != nil {
 		return err
 	}
 	pb := stmtsOf(f, pi.Body)
 	prefix, found := "", false
 	ast.Inspect(pi.Body, func(x ast.Node) bool {
-		if ce, ok := x.(*ast.CallExpr); ok && f.Src(ce.Fun) == "strings.CutPrefix" && len(ce.Args) == 2 && f.Src(ce.Args[0]) == "val" {
+		if ce, ok := x.(*ast.CallExpr); ok && f.Src(ce.Fun) == "strings.CutPrefix" && len(ce.Args) == 2 && f.Src(ce.Args[0]) == "v1" {
 			if s, ok := StringLit(ce.Args[1]); ok {
 				prefix, found = s, true
 			}
 		}
 		return true
 	})
-	if !found || len(pb) != 4 || pb[0] != fmt.Sprintf("val, exclude := strings.CutPrefix(val, %q)", prefix) ||
-		pb[1] != "r, err := regexp.Compile(val)" || pb[3] != "return RegexpListItem{r, exclude}, nil" {
+	if !found || len(pb) != 4 || pb[0] != fmt.Sprintf("v1, v2 := strings.CutPrefix(v1, %q)", prefix) ||
+		pb[1] != "v3, v4 := regexp.Compile(v1)" || pb[3] != "return RegexpListItem{v3, v2}, nil" {
 		return fmt.Errorf("ParseRegexpListItem: body %q is not the shape the model knows", pb)
 	}
 	w.DefStr("exclude_prefix", prefix)
-	// NewRegexpMatcherFromList: partition by the Exclude mark
-	fl, err := f.Func("NewRegexpMatcherFromList")
+	// ---- NewRegexpMatcherFromList(v1 l): partition by the Exclude mark
+	fl, err := fn("NewRegexpMatcherFromList")
 	if err != nil {
 		return err
 	}
 	lb := strings.Join(stmtsOf(f, fl.Body), " ; ")
-	wantLB := "var include, exclude []*regexp.Regexp ; " +
-		"for i := range l { if l[i].Exclude { exclude = append(exclude, l[i].Regexp) } else { include = append(include, l[i].Regexp) } } ; " +
-		"return NewRegexpMatcher(include, exclude)"
+	wantLB := "var v2, v3 []*regexp.Regexp ; " +
+		"for v4 := range v1 { if v1[v4].Exclude { v3 = append(v3, v1[v4].Regexp) } else { v2 = append(v2, v1[v4].Regexp) } } ; " +
+		"return NewRegexpMatcher(v2, v3)"
 	if lb != wantLB {
 		return fmt.Errorf("NewRegexpMatcherFromList: body %q is not the shape the model knows", lb)
 	}
-	// which side is consulted first / wins
+	// which side is consulted first
 	w.DefBool("exclude_checked_first", matchBody == joinedMatch || matchBody == eachMatch)
 	return nil
 }
